@@ -41,11 +41,13 @@ CLAIMS["C08"] = dict(
           "exists, repeat offers update in place, full bucket of equal-or-better nodes rejects and is unchanged, room or a worse "
           "node => admitted, no duplicate. Being an inductive step from any state satisfying the stated invariant it covers "
           "histories of any length at bucket level. Quick: 4 symbolic slots at a time; thorough: all 8 at once. Plus symbolic kernels for the "
-          "table's placement arithmetic."),
+          "table's placement arithmetic, and one table-level step without a split: RoutingTable::add_node into a full bucket that cannot split "
+          "(7 good nodes + one of arbitrary standing, newcomer good or questionable) behaves exactly like the bucket rule, adds no bucket and keeps "
+          "every other node and the placement invariant."),
     note=("Slot identities are concrete and distinct (symbolic standing); occupancy concrete per harness (DESIGN.md F21); virtual "
           "clock. Table level: only the placement arithmetic (bucket_placement, can_split_bucket, leading_bit_count, flip_bit) is decided, "
-          "by symbolic kernels; the split itself (re-adding the 8 nodes, retry) is NOT decided - harnesses over a heap-backed table with "
-          "symbolic state did not terminate (DESIGN.md 8.3/8.5)."),
+          "by symbolic kernels, plus one add_node without a split; the split itself (re-adding the 8 nodes, retry) is NOT decided - the split harness was "
+          "still in symbolic execution after 25 min even with a pre-sized Vec<Bucket> and a recursion bound on split_bucket (DESIGN.md 8.3/8.5, F28)."),
 )
 
 CLAIMS["C06"] = dict(
